@@ -29,6 +29,7 @@ VARIANTS = {
     "inplace": {"DatasetUnchanged"},
     "dropempty": {"OneSeriesEach"},
     "auxmask": {"PointsExact"},
+    "rotgrid": {"PointsExact", "MeshExact"},
 }
 
 TLA_FIELDS = ["id", "kind", "NX", "NZ", "NR", "NC", "xvar", "even", "ZPos", "colour", "CTab", "lims",
@@ -181,6 +182,11 @@ def gen_configs(tier):
             add(kind, 3, 2, NR=1, NC=2, maxbad=2, vals="fni", whole=True)
             add(kind, 2, 2, NR=2, maxbad=2, vals="fn", series="vars", colour="z")
             add(kind, 2, 3, NR=2, NC=2, maxbad=1, vals="fn", colour="c", legend="off")
+        # --- grids over coordinates that are neither increasing nor decreasing (three values)
+        add(kind, 2, 2, NR=3, maxbad=1, vals="fn", whole=True)
+        add(kind, 2, 1, NC=3, maxbad=1 if not T else 2, vals="fn", gridtype=2)
+        add(kind, 2, 1, NR=3, NC=2, maxbad=1, vals="fn", gridtype=1, colour="c")
+        add(kind, 2, 2, NR=2, NC=3, maxbad=0 if not T else 1, vals="fn", gridtype=2, colour="z", ZPos=[2, 5])
         # --- auto_* variants (arrays instead of a Dataset)
         add(kind, 3, 2, maxbad=b2 if not T else full, whole=True, api="auto")
         add(kind, 3, 1, maxbad=full, api="auto")
@@ -231,6 +237,9 @@ def gen_configs(tier):
     add("hist", 2, 2, NR=2, NC=2, maxbad=1, vals="fn", whole=True, colour="z", ZPos=[3, 1], bins=4, gridtype=1)
     add("hist", 3, 2, NC=2, maxbad=1, vals="fn", series="vars", bins=4)
     add("hist", 3, 1, NC=2, maxbad=b1, vals="fn", bins=4)
+    add("hist", 3, 2, NR=3, maxbad=1, vals="fn", whole=True, bins=5)
+    add("hist", 3, 1, NC=3, maxbad=1, vals="fn", bins=4, gridtype=2)
+    add("hist", 2, 2, NR=3, NC=2, maxbad=0 if not T else 1, vals="fn", bins=4, gridtype=1)
     add("hist", 2, 11, maxbad=0, vals="fn", colour="z", bins=5)
     add("hist", 2, 11, maxbad=0, vals="fn", bins=5)
     # --- heat maps
@@ -242,6 +251,9 @@ def gen_configs(tier):
     add("heat", 2, 2, NR=2, maxbad=b1 if not T else 3, vals="fni" if T else "fn")
     add("heat", 2, 2, NC=2, maxbad=b1 if not T else 3, vals="fn", gridtype=1, dimorder=1)
     add("heat", 2, 2, NR=2, NC=2, maxbad=1, vals="fn")
+    add("heat", 2, 2, NR=3, maxbad=1, vals="fn")
+    add("heat", 2, 2, NC=3, maxbad=1 if not T else 2, vals="fn", gridtype=2, dimorder=1)
+    add("heat", 2, 2, NR=3, NC=2, maxbad=0 if not T else 1, vals="fn", gridtype=1)
     for i, c in enumerate(out):
         c["id"] = i + 1
     return out
@@ -283,6 +295,7 @@ def variant_configs():
         "inplace": [make_cfg("line", 2, 2, maxbad=1)],
         "dropempty": [make_cfg("line", 2, 2, maxbad=1, whole=True)],
         "auxmask": [make_cfg("line", 2, 1, maxbad=1, aux=True, yerr=True)],
+        "rotgrid": [make_cfg("line", 2, 1, NR=3, maxbad=1, vals="fn"), make_cfg("heat", 2, 2, NR=3, maxbad=1, vals="fn")],
     }
 
 
@@ -340,11 +353,16 @@ def z_values(cfg):
 
 
 def grid_values(cfg):
+    """coordinate values of the row / column dimensions, in stored order: two values are descending, three are
+    neither increasing nor decreasing (numbers and strings) - panels are keyed by stored order, not sorted order"""
     g = cfg["h"].get("gridtype", 0)
     if g == 0:
-        rows, cols = ["rb", "ra"], [0.5, 0.25]
+        rows, cols = ["rb", "ra", "rc"], [0.5, 0.25, 0.75]
+    elif g == 1:
+        rows, cols = [7, 3, 5], ["cb", "ca", "cc"]
     else:
-        rows, cols = [7, 3], ["cb", "ca"]
+        rows, cols = ["lo", "mid", "hi"], [3.0, 1.0, 2.0]
+    assert cfg["NR"] <= 3 and cfg["NC"] <= 3
     return rows[:max(cfg["NR"], 0)], cols[:max(cfg["NC"], 0)]
 
 
@@ -1059,7 +1077,7 @@ def run(rep):
         "numeric equality of colours (colour map look-up at the rational the spec emits, tolerance 1e-6 per channel, "
         "either neighbour accepted at a look-up boundary) and of histogram densities (count/(n*width), 1e-6) is decided "
         "by the harness, not by TLC",
-        "TLC checks the machine against the invariants only for the enumerated shapes (NX <= 4, NZ <= 3 and 10..12, grid <= 2x2)",
+        "TLC checks the machine against the invariants only for the enumerated shapes (NX <= 4, NZ <= 3 and 10..12, grid <= 3x3)",
         "the default colour map is taken from xyzpy.plot.color.xyz_colormaps(None); named maps from matplotlib",
         "which of legend / colour bar appears is compared with the modelled rule but only noted (the property does not state it)",
         "error-bar, marker and log-axis options are passed through; error bars are compared at the kept points only",
